@@ -174,13 +174,14 @@ def run(prog, run):
                         if 'TaskPrivate' in t and not t.strip().endswith('&') and not t.strip().endswith('*'):
                             bad = (c, fl['name'], t)
                     continue
-                n = f.nodes[how[1]]
+                hf = how[2] if len(how) > 2 else f
+                n = hf.nodes[how[1]]
                 for cp in n.get('caps', []):
                     t = cp.get('t') or ''
                     if not t and cp.get('init') is not None:
-                        t = f.nodes[cp['init']].get('t') or f.nodes[f.skip(cp['init'])].get('t') or f.nodes[f.skip(cp['init'])].get('cls') or ''
+                        t = hf.nodes[cp['init']].get('t') or hf.nodes[hf.skip(cp['init'])].get('t') or hf.nodes[hf.skip(cp['init'])].get('cls') or ''
                         if not t:
-                            t = ' '.join(str(f.nodes[j].get('t') or '') for j in f.walk(cp['init']))
+                            t = ' '.join(str(hf.nodes[j].get('t') or '') for j in hf.walk(cp['init']))
                     if not t and cp.get('name') == 'this':
                         continue
                     if 'TaskPrivate' in t and not cp.get('byref') and not t.strip().endswith('&'):
@@ -228,6 +229,11 @@ def run(prog, run):
                               % (fl['name'], top.display()[:50], ' (inside a lambda, e.g. a signal handler)' if g.is_lambda else ''))
 
 
+def fn_is_template_member(prog, f, m):
+    s = f.sym(m) or {}
+    return (s.get('record') or '').startswith('QXmppTask') or (s.get('qname') or '').startswith('QXmppTask')
+
+
 def _wrappers(prog, f, call):
     """the callable(s) handed to this setContinuation call: [(Fn of its operator(), ('lambda', lambda node id) | ('functor', record))]"""
     out = []
@@ -237,7 +243,20 @@ def _wrappers(prog, f, call):
             m = f.nodes[j]
             if m['k'] == 'lambda':
                 for l in prog.lambda_fns(f, m):
-                    out.append((l, ('lambda', j)))
+                    out.append((l, ('lambda', j, f)))
+            elif m['k'] == 'call' and not m.get('op') and fn_is_template_member(prog, f, m):
+                # a helper of the task template that builds and returns the wrapper
+                for g in prog.callee_fns(f, m):
+                    if g.entry is None:
+                        continue
+                    for _, rn in g.returns():
+                        if 'e' not in rn:
+                            continue
+                        for jj in g.walk(rn['e']):
+                            mm = g.nodes[jj]
+                            if mm['k'] == 'lambda':
+                                for l in prog.lambda_fns(g, mm):
+                                    out.append((l, ('lambda', jj, g)))
             elif m['k'] in ('initlist', 'construct') and m.get('t') and not (m.get('t') or '').startswith('std::function'):
                 t = m['t']
                 for g in prog.fns.values():
